@@ -640,6 +640,14 @@ class Env:
             path = os.path.join(d, h + ".json")
             with open(path, "w", encoding="utf-8") as f:
                 json.dump(replay, f, ensure_ascii=False, indent=1)
+            # what the replay file says, in short, so that a log of the run is enough to see it
+            if self.failures:
+                f0 = self.failures[0]
+                print(f"DETAIL: failing input {canon(f0.get('input'))[:300]} :: {str(f0.get('what'))[:300]}")
+            for b in self.broken[:3]:
+                print(f"DETAIL: no longer checks: {b['what'][:300]}")
+            for dgr in [x for x in self.disagreements if x][:2]:
+                print(f"DETAIL: model and implementation disagree ({dgr['component']}) on {canon(dgr['input'])[:300]}")
             print(f"VIOLATION property={self.prop} replay={path}{suffix}")
             sys.stdout.flush()
             return 1
